@@ -15,7 +15,7 @@ RULE = (
     "seeded random programs: a signature with 1-3 inputs, 1-2 outputs (possibly without core dims), 1-2 dummy axes per "
     "argument out of 1-3 dummy names (incl. hostile identifiers), bound to the real axes of a random 1-3 axis grid in "
     "order of first appearance; boundary_width over dummies carried by every input; boundary/fill_value spellings at grid, "
-    "definition and call level; the options supplied through apply_as_grid_ufunc, through the as_grid_ufunc decorator, "
+    "definition and call level; the options supplied through apply_as_grid_ufunc (function and Grid method), through the as_grid_ufunc decorator, "
     "through Annotated type hints + decorator, and as definition-time value != default != call-time value; a recording "
     "user function that returns arrays of the declared output sizes. Verdicts: received arrays have the signature axes "
     "trailing in signature order, extended by exactly the declared widths with the rule in force (set of core blocks "
@@ -78,7 +78,7 @@ def gen_case(rng, i, tier):
     # call-time values include the falsy ones (0, 0.0): "call-time values override" must not depend on truthiness
     call = {"boundary": gen.random_spelling(rng, axn, gen.RULES, p_none=0.5),
             "fill_value": gen.random_spelling(rng, axn, FILLS + [0, 0.0, 0], p_none=0.4)}
-    mode = rng.choice(["apply", "decorator", "hints", "define-then-override"])
+    mode = rng.choice(["apply", "apply-method", "decorator", "hints", "define-then-override"])
     call_bw = None
     if mode == "define-then-override" and rng.random() < 0.5 and common:
         call_bw = {d: [rng.randint(0, 2), rng.randint(0, 2)] for d in common if rng.random() < 0.8}
@@ -131,7 +131,7 @@ def run_case(ctx, desc):
         return res if len(res) > 1 else res[0]
 
     # which option value is in force
-    if mode == "apply":
+    if mode in ("apply", "apply-method"):
         defn, call = {}, {k: v for k, v in desc["call"].items() if v is not None}
         bw_def, bw_call = None, desc["bw"]
     elif mode in ("decorator", "hints"):
@@ -150,6 +150,10 @@ def run_case(ctx, desc):
         if mode == "apply":
             return apply_as_grid_ufunc(body, *arglist, axis=axis, grid=g, signature=sig,
                                        boundary_width={d: tuple(w) for d, w in bw_call.items()}, **call)
+        if mode == "apply-method":
+            # the same through the Grid method
+            return g.apply_as_grid_ufunc(body, *arglist, axis=axis, signature=sig,
+                                         boundary_width={d: tuple(w) for d, w in bw_call.items()}, **call)
         if mode == "hints":
             from typing import Annotated, Tuple
 
